@@ -94,10 +94,10 @@ def gen_world(rng, profile=None):
     return w
 
 # ------------------------------------------------------------------------------------------------
-def gen_instruction(rng, w, v, valid_p=0.7):
+def gen_instruction(rng, w, v, valid_p=0.7, uniform=False):
     sim = w.sim
     kinds = ['idle', 'dtrip', 'dstation', 'cstation', 'cbase', 'dbase', 'repos', 'rbase', 'oos']
-    weights = [1, 3, 3, 3, 2, 2, 1, 2, 0.3]
+    weights = [1, 3, 3, 3, 2, 2, 1, 2, 0.3] if not uniform else [1] * 9
     kind = rng.choices(kinds, weights)[0]
     valid = rng.random() < valid_p
     stations = sorted(sim.stations.values(), key=lambda s: s.id)
@@ -161,6 +161,9 @@ def gen_request_rows(rng, w, n):
         if w.sim.vehicles and rng.random() < 0.5:
             o = rng.choice(sorted(v.geoid for v in w.sim.vehicles.values()))
         d = rng.choice(w.geoids)
+        if rng.random() < 0.5:
+            far = sorted(w.geoids, key=lambda g: -h3.point_dist(h3.h3_to_geo(o), h3.h3_to_geo(g)))
+            d = far[0]
         (olat, olon), (dlat, dlon) = h3.h3_to_geo(o), h3.h3_to_geo(d)
         r = rng.random()
         if r < 0.7:
@@ -180,7 +183,13 @@ def gen_request_rows(rng, w, n):
 
 def gen_instr_op(rng, w, p_each=0.6, valid_p=0.7):
     vs = sorted(w.sim.vehicles.values(), key=lambda v: v.id)
-    instrs = [gen_instruction(rng, w, v, valid_p) for v in vs if rng.random() < p_each]
+    instrs = []
+    for v in vs:
+        # vehicles that hold something (passengers, a plug, a stall, a queue slot, a request assignment) are re-instructed
+        # more often and with every instruction kind equally: that is where a rejected or half-applied instruction shows
+        holding = isinstance(v.vehicle_state, (ServicingTrip, ChargingStation, ChargingBase, ChargeQueueing, ReserveBase, DispatchTrip))
+        if rng.random() < (max(p_each, 0.75) if holding else p_each):
+            instrs.append(gen_instruction(rng, w, v, valid_p, uniform=holding and rng.random() < 0.6))
     if rng.random() < 0.05:
         instrs.append(I.IdleInstruction('v9'))     # unknown vehicle
     # StepSimulation applies instructions in descending vehicle-id order
